@@ -11,7 +11,7 @@ RULE = ("round-trip stream: every subset of {years, months, days, hours, minutes
         "decimals, leading '-', bare 'P'/'PT'/trailing 'T', weeks, and the date-time-like spellings (calendar and ordinal, "
         "basic and extended) paired with their designator spelling; mutation stream: well-formed strings with 1-3 random "
         "edits, strings over the designator alphabet, greedy-backtracking shapes such as PT1H2H3M, newlines, exponent and "
-        "underscore float spellings, non-ASCII digits. non-trivial = a non-empty duration / a string that parses.")
+        "underscore float spellings, non-ASCII digits; mixed-sign durations (model against implementation only). non-trivial = a non-empty duration / a string that parses.")
 EXPLANATION = ("on the implementation: parse(str(d)) == d with its own ==, str(parse(str(d))) == str(d), every parsed component equals "
                "the component printed; each designator maps to its unit (years/months/days/weeks ints, M before T = months, after T "
                "= minutes), sign factor applied to every component, comma == point; the date-time-like spelling yields the same "
@@ -225,8 +225,20 @@ def mutation_cases(rng, tier, seeds):
     return out
 
 
+def mixed_cases(rng, tier):
+    """Mixed-sign durations: outside the property, model against implementation only."""
+    out = []
+    for _ in range(400 if tier == "quick" else 5000):
+        k = rng.randint(2, 6)
+        sub = rng.sample(UNITS, k)
+        vals = {u: rng.choice([1, -1]) * unit_value(rng, u, rng.choice(["int", "dec"])) for u in sub}
+        tok = du(**vals)
+        out.append(Case(["dstr " + tok, "dround " + tok], ["mixed-sign"], kind="mut", text=tok))
+    return out
+
+
 def generate(rng, tier):
-    rc = round_cases(rng, tier)
+    rc = round_cases(rng, tier) + mixed_cases(rng, tier)
     pc = parse_cases(rng, tier)
     seeds = [c.meta["text"] for c in pc]
     return rc + pc + mutation_cases(rng, tier, seeds)
